@@ -93,6 +93,33 @@ func Tick(site string) {
 	}
 }
 
+// TickLeaf is Tick for leaf helpers (_Find): it counts and can preempt, but
+// leaves the "last site" of the task on the caller.
+func TickLeaf(site string) {
+	if !Controlled {
+		return
+	}
+	t := cur
+	if t == nil {
+		return
+	}
+	t.Ticks++
+	if t.Ticks > t.Budget {
+		at := t.LastSite
+		if at == "" {
+			at = site
+		}
+		panic(&BudgetExceeded{Site: at, Ticks: t.Ticks})
+	}
+	if multi {
+		t.quantum--
+		if t.quantum <= 0 {
+			yieldCh <- struct{}{}
+			<-t.resume
+		}
+	}
+}
+
 // Enter is inserted by pass P4 as the first statement of every generated
 // function that has a body worth scheduling: a Tick plus an entry count.
 func Enter(fn string) {
